@@ -119,9 +119,11 @@ func (it *NativeIterator) Merge(oldval []byte) (val []byte, err error) {
 	oldTS := h.Timestamp
 	newTS := header.Timestamp(entry.TimestampNano)
 	actualOldVal := appVal
+	newDeleted := entry.MaskedFlags().IsDeleted() ||
+		(len(entryVal) == 0 && it.FormatVersion < 2) // see addHeader
 	if newTS == 0 {
 		// Special handling for main to shadow copy that uses a default timestamp
-		if bytes.Equal(actualOldVal, entryVal) {
+		if bytes.Equal(actualOldVal, entryVal) && h.Flags.IsDeleted() == newDeleted {
 			return oldval, nil // do not update timestamp
 		}
 		newTS = it.DefaultTimestampNano
@@ -136,8 +138,6 @@ func (it *NativeIterator) Merge(oldval []byte) (val []byte, err error) {
 		// If the values are equal, a deletion wins over a live (empty) value, so
 		// that the result does not depend on the order in which they are merged.
 		cmp := bytes.Compare(actualOldVal, entryVal)
-		newDeleted := entry.MaskedFlags().IsDeleted() ||
-			(len(entryVal) == 0 && it.FormatVersion < 2) // see addHeader
 		if cmp < 0 || (cmp == 0 && (h.Flags.IsDeleted() || !newDeleted)) {
 			return oldval, nil
 		}
